@@ -23,6 +23,8 @@ pub struct Stats {
     pub executions: u64,
     pub transitions: u64,
     pub states: HashSet<u64>,
+    /// states that are distinct by construction (nodes of a schedule tree): counted, not stored
+    pub states_counted: u64,
     pub nontrivial: u64,
     pub outcomes: BTreeMap<String, u64>,
     pub samples: Vec<Value>,
@@ -50,7 +52,7 @@ impl Stats {
             "configs": self.configs,
             "executions": self.executions,
             "transitions": self.transitions,
-            "states": self.states.len(),
+            "states": self.states.len() as u64 + self.states_counted,
             "nontrivial": self.nontrivial,
             "outcomes": self.outcomes,
             "samples": self.samples,
